@@ -6,7 +6,7 @@ from decimal import Decimal
 
 NAMES = "abcdefg"
 
-MKD_KINDS = ["int", "mix", "tuple", "str", "fz", "bound", "fneq"]
+MKD_KINDS = ["int", "mix", "tuple", "str", "fz", "bound", "fneq", "falsy"]
 SD_KINDS = ["fn", "bound", "fneq"]
 BAD_KINDS = ["list", "dict", "set", "bytearray", "ueq"]
 OBS_KINDS = ["get", "gett", "k2k", "v2k", "in", "iter", "misc", "hasattr", "call", "bad"]
@@ -58,6 +58,9 @@ class Values(object):
     if k == "tuple": return tuple([v, "x"]) if var % 2 else (v,) + ("x",)
     if k == "str": return "".join(["s", str(v)]) if var % 2 else "s%d" % v
     if k == "fz": return frozenset([v])
+    if k == "falsy":   # None, zeros of several types, empty containers: one class each
+      if v == 2: return [0, 0.0, False, Fraction(0), Decimal(0), 0j, -0.0][var % 7]
+      return FALSY[(v - 1) % len(FALSY)]
     if k == "fn": return self.fn[v]
     if k == "bound": return self.holder[v].run
     if k == "fneq": return FnEq(v)
@@ -71,14 +74,39 @@ class Values(object):
     if k == "str": return int(x[1:])
     if k == "fz": return list(x)[0]
     if k == "bound": return x.__self__.i
+    if k == "falsy":
+      for i, f in enumerate(FALSY):
+        if (x is None) == (f is None) and isinstance(x, (str, tuple, frozenset, bytes)) == isinstance(f, (str, tuple, frozenset, bytes)) and x == f:
+          return i + 1
+      raise ValueError(x)
     return x.i
 
 
-def key_variant(k, n, strategy):
+def key_variant(k, n, isstr):
   """an object equal to key k: a separately built string, or the same number in another type"""
-  if strategy:
+  if isstr:
     return "".join(list(k)) if n % 2 else k
-  return [k, float(k), Fraction(k), Decimal(k)][n % 4]
+  alts = [k, float(k), Fraction(k), Decimal(k)] + ([bool(k)] if k in (0, 1) else [])
+  return alts[n % len(alts)]
+
+
+# names a strategy may be registered under although the class has an attribute spelled like that: the instance
+# attribute set by StrategyDict.__setitem__ shadows methods and non-data descriptors.  NOT in the pool (the unchanged
+# code itself breaks, see the report in harness/C15.py FINDINGS): values, keys, key2keys, default, _keys_dict,
+# _inv_dict, __name__ (instance attributes), __doc__, __class__, __dict__ (data descriptors)
+COLLIDING = ["copy", "get", "pop", "update", "clear", "setdefault", "popitem", "fromkeys", "strategy", "items",
+             "value2keys", "__len__", "__iter__", "__call__", "__getitem__", "__setitem__", "__delitem__", "__delattr__",
+             "__init__", "__new__", "__eq__", "__hash__", "__contains__", "__repr__", "mro", "__slots__"]
+
+
+def pick_names(rng, n):
+  """n distinct names: plain ones mixed with names colliding with class attributes and dunder-like names"""
+  plain = [x * 2 for x in NAMES] + ["_x", "__y", "z__", "__w__", "Default", "default_"]
+  pool = rng.sample(COLLIDING, min(n, len(COLLIDING)))
+  return [pool[i] if rng.random() < 0.6 else plain[i] for i in range(n)]
+
+
+FALSY = [None, 0, "", (), frozenset(), b""]
 
 
 def make_bad(kind):
@@ -114,7 +142,12 @@ def rand_op(rng, nk, nv, strategy, p_bad=0.1, p_obs=0.2):
       return ["obs", qk, rng.randrange(1, nv + 2), rng.randrange(6)]
     return ["obs", qk, rng.randrange(nk + 1) if qk in ("get", "k2k", "gett", "in") else rng.randrange(nk), rng.randrange(6)]
   r = rng.random()
+  if strategy and r < 0.09:      # the user chooses / removes the default (a stored strategy or one never stored)
+    return ["setdef", rng.randrange(1, nv + 2), rng.randrange(6)] if r < 0.055 else ["deldef"]
+  r = rng.random()
   n = rng.choice([1, 1, 1, 2, 2, 3])
+  if nk >= 5 and rng.random() < 0.15:
+    n = rng.randrange(4, 9)      # long key tuples, with repetitions
   ks = [rng.randrange(nk) for _ in range(n)]
   if r < p_bad:
     return ["setbad", ks, rng.choice(BAD_KINDS)]
@@ -134,8 +167,38 @@ def rand_case(rng, strategy, nk, nv, kind, nmin, nmax, tag, init_p=0.25):
     keys = list(range(nk)); rng.shuffle(keys)
     init = [[k, rng.randrange(1, nv + 1), rng.randrange(6)] for k in keys[:rng.randrange(1, nk + 1)]]
   ops = [rand_op(rng, nk, nv, strategy) for _ in range(rng.randrange(nmin, nmax + 1))]
-  return {"strategy": strategy, "nk": nk, "nv": nv, "vk": kind, "init": init, "ops": ops, "kvar": rng.random() < 0.5,
+  c = {"strategy": strategy, "nk": nk, "nv": nv, "vk": kind, "init": init, "ops": ops, "kvar": rng.random() < 0.5,
           "tags": [tag, "sd" if strategy else "mkd", "vk:" + kind]}
+  if strategy and rng.random() < 0.5:
+    c["names"] = pick_names(rng, nk + 1); c["tags"].append("colliding-names")
+  elif not strategy and rng.random() < 0.3:
+    c["keys"] = "str"
+  return c
+
+
+def rand_multi(rng, nk, nv, nmin, nmax, tag):
+  """several objects: fresh ones, MultiKeyDicts built from existing objects (4 spellings), operations on any of them"""
+  has_sd = rng.random() < 0.4
+  kind = rng.choice(SD_KINDS if has_sd else MKD_KINDS)
+  kinds, ops = [], []
+  def new():
+    st = has_sd and (not kinds or rng.random() < 0.5)
+    kinds.append(st); ops.append(["new", st])
+  new()
+  for _ in range(rng.randrange(nmin, nmax + 1)):
+    r = rng.random()
+    if r < 0.06 and len(kinds) < 4:
+      new()
+    elif r < 0.24 and len(kinds) < 4:
+      ops.append(["cast", rng.randrange(len(kinds)), rng.randrange(4)]); kinds.append(False)
+    else:
+      i = rng.randrange(len(kinds))
+      ops.append(["on", i, rand_op(rng, nk, nv, kinds[i], p_obs=0.12)])
+  c = {"nk": nk, "nv": nv, "vk": kind, "ops": ops, "kvar": rng.random() < 0.5,
+       "keys": "names" if has_sd else rng.choice(["ints", "ints", "str"]), "tags": [tag, "vk:" + kind, "objs:%d" % len(kinds)]}
+  if has_sd and rng.random() < 0.5:
+    c["names"] = pick_names(rng, nk + 1); c["tags"].append("colliding-names")
+  return c
 
 
 def targeted(strategy, kind):
